@@ -88,6 +88,29 @@ Example ex_disabled :
   step KBdd ex_terms 2 ex_mid (AGoi 1 1 [E 2; T1] 4) = None.
 Proof. vm_compute. repeat split; reflexivity. Qed.
 
+(** the frame theorems are not vacuous: thread 1 sits on its two handles while thread 0
+    releases its own and the collector frees node 3; thread 1's handles and what they
+    denote are untouched *)
+Definition ex_others : list act := [ARelease 0 (E 1); ARelease 0 (E 3); AGcNode 3].
+
+Example ex_idle_run : exists s', run KBdd ex_terms 2 ex_mid ex_others = Some s' /\ cfind (cn s') 3 = None.
+Proof. eexists. split; vm_compute; reflexivity. Qed.
+
+Example ex_idle_hyp : forall a, In a ex_others -> act_tid a <> Some 1.
+Proof. intros a [<-|[<-|[<-|[]]]]; discriminate. Qed.
+
+(** borrowing: a worker thread (5) clones a child of the node thread 0 holds; nobody can
+    clone an edge to a node that no owned edge leads to *)
+Example ex_borrow :
+  (exists s', step KBdd ex_terms 2 ex_mid (ARetain 5 (E 2)) = Some (s', None) /\
+              In (5, E 2) (cown s') /\ cinv_b KBdd ex_terms 2 s' = true) /\
+  (exists s1, run KBdd ex_terms 2 ex_mid [ARelease 0 (E 3)] = Some s1 /\
+              cfind (cn s1) 3 <> None /\ step KBdd ex_terms 2 s1 (ARetain 0 (E 3)) = None).
+Proof.
+  split; eexists; (split; [vm_compute; reflexivity|]); split;
+    try (vm_compute; reflexivity); try (vm_compute; discriminate); vm_compute; auto.
+Qed.
+
 (** the table-only replay of the same schedule *)
 Example ex_tbl_replay :
   run_tbl KBdd ex_terms 2 [] (erase_list ex_sched) = Some (cn_shape (cn ex_final)).
